@@ -50,6 +50,17 @@ DTMC_SCENARIOS = [
 def instances(tier, seed):
     for inst in c11.instances(tier, seed):
         inst = dict(inst)
+        if inst["kind"] == "scenario":
+            # one instance per (scenario, target variant)
+            state, names = c11.initial_state(inst["tset"], inst["N"], inst["placement"])
+            big = len(state[1]) >= 18
+            for tname, _ in target_variants(state, names, tier, False):
+                if "+" in tname and tier == "quick":
+                    continue
+                if big and tier == "quick" and tname.startswith(("zeroed", "graded")):
+                    continue
+                yield dict(inst, target=tname)
+            continue
         yield inst
     for name, tset, N, motifs in COLLISION_SCENARIOS:
         placement = [[k, list(vs)] for k, vs in motifs]
@@ -187,7 +198,7 @@ def run_scenario(inst, tier, res):
     state, names = c11.initial_state(inst["tset"], inst["N"], inst["placement"])
     cap = c11.SCENARIO_CAP[tier]
     for tname, target in target_variants(state, names, tier, False):
-        if "+" in tname and tier == "quick":
+        if tname != inst.get("target", tname):
             continue
         mcmc.EJKS_DICT_ORDER[0] = "reversed" if (len(names) >= 2 and tname.startswith(("removed", "graded"))) \
             else "names"
